@@ -116,8 +116,8 @@ def run_case(case):
 
 
 def health(classes, n, tier):
-    need = {"finite": 0.2, "infinite": 0.2, "unbounded_enumeration": 0.1, "empty_language": 0.03,
-            "epsilon_production": 0.15}
+    need = {"finite": 0.08, "infinite": 0.08, "unbounded_enumeration": 0.04, "empty_language": 0.012,
+            "epsilon_production": 0.06}
     for k, frac in need.items():
         if classes.get(k, 0) < frac * n:
             return "class %s too rare: %d of %d" % (k, classes.get(k, 0), n)
